@@ -1028,6 +1028,10 @@ func (it *Interp) binop(op token.Token, a, b AV, x *ssa.BinOp) AV {
 			}
 		}
 	}
+	// the same symbolic object on both sides (pointer identity, or one value compared with itself)
+	if (op == token.EQL || op == token.NEQ) && a.Kind == b.Kind && (a.Kind == KNonNil || a.Kind == KAddr) && a.Key == b.Key && a.Key != "" {
+		return CBool(op == token.EQL)
+	}
 	// canonical atoms: (a == b), (a < b)
 	as, bs := a.String(), b.String()
 	try := func(k string, neg bool) (AV, bool) {
@@ -1371,3 +1375,7 @@ func unaliasDeep(t types.Type) types.Type {
 	}
 	return t
 }
+
+// SetMem lets a call hook model a callee's write to abstract memory (the cell
+// named by its access path).
+func (it *Interp) SetMem(key string, v AV) { it.mem[key] = v }
